@@ -14,7 +14,7 @@ import (
 func init() {
 	register(Property{ID: "C15", Level: "other", Run: runC15,
 		Technique: "static analysis: field-set agreement between core.pathConfCanBeUpdated (hot-reloadable fields) and their consumers (path.doReloadConf, forward manager, rpicamera fromConf on linux/arm), must-pass-through path conditions and result-use rule on pathManager.doReloadConf (go/ssa + AST)",
-		Text: "Decides the reconciliation skeleton of one reload: (1) the set of fields pathConfCanBeUpdated copies (hot-reloadable) is exactly the set consumed in place - Forward by forwardManager.ReloadConf, the seven Record* fields by the recorder restart condition of path.doReloadConf (set equality), the RPICamera* fields by cameraParams.fromConf reached through Handler.ReloadConf and the camera run loop (linux/arm build) - so a hot-reloaded field is never silently ignored and nothing else is treated as hot-reloadable; (2) in pathManager.doReloadConf every live path is closed when its name no longer resolves, when the configuration cannot be updated in place, when it is in confsToRecreate, or when its capture groups changed; a path moved to another configuration gets confName updated before the reload is sent; the capture groups returned by FindPathConf for the new configuration are used (not discarded); pm.pathConfs is replaced before missing static paths are created; every static configuration without a live path is created. It does not decide reconciliation over arbitrary reload histories, nor which parameters the external camera process honours.",
+		Text: "Decides the reconciliation skeleton of one reload: (1) the set of fields pathConfCanBeUpdated copies (hot-reloadable) is exactly the set consumed in place - Forward by forwardManager.ReloadConf, the seven Record* fields by the recorder restart condition of path.doReloadConf (set equality), the RPICamera* fields by cameraParams.fromConf reached through Handler.ReloadConf and the camera run loop (linux/arm build) - so a hot-reloaded field is never silently ignored and nothing else is treated as hot-reloadable; (2) in pathManager.doReloadConf every live path is closed when its name no longer resolves, when the configuration cannot be updated in place, when it is in confsToRecreate, or when its capture groups changed - captureGroupsEqual is decided to be an exact equality on the groups (abstract interpretation of all its paths over the bounds of len(matches): true only if both sides have no groups or slices.Equal over m[1:] said so, false only if exactly one side has groups), is applied to pa.matches and the newly resolved groups, and its negative outcome closes the path; a path moved to another configuration gets confName updated before the reload is sent; the capture groups returned by FindPathConf for the new configuration are used (not discarded); pm.pathConfs is replaced before missing static paths are created; every static configuration without a live path is created. It does not decide reconciliation over arbitrary reload histories, nor which parameters the external camera process honours.",
 		Note: "trusted: conf.FindPathConf (C14), conf.Path.Equal; the rpicamera consumer exists only in the linux/arm build configuration and is analysed there"})
 	addMutants(
 		Mutant{"C15", "hot-field-without-consumer", "internal/core/path_manager.go",
@@ -32,6 +32,15 @@ func init() {
 			"	// create new static paths\n	for pathConfName, pathConf := range newPaths {\n		if pathConf.Regexp == nil {\n			if _, ok := pm.paths[pathConfName]; !ok {\n				pm.createPath(pathConf, pathConfName, nil)\n			}\n		}\n	}\n\n	pm.pathConfs = newPaths\n", "C15.reload.confs_before_create"},
 		Mutant{"C15", "moved-path-reloaded-without-check", "internal/core/path_manager.go",
 			"			if pathConfCanBeUpdated(oldPathConf, newPathConf) {\n				pa.confName", "			if oldPathConf != nil {\n				pa.confName", "C15.reload.hot_only_if_updatable"},
+		Mutant{"C15", "groups-equal-when-either-side-has-none", "internal/core/path_manager.go",
+			"	var groups1 []string\n	if len(matches1) > 1 {\n		groups1 = matches1[1:]\n	}\n\n	var groups2 []string\n	if len(matches2) > 1 {\n		groups2 = matches2[1:]\n	}\n\n	return slices.Equal(groups1, groups2)\n",
+			"	if len(matches1) <= 1 || len(matches2) <= 1 {\n		return true\n	}\n\n	return slices.Equal(matches1[1:], matches2[1:])\n", "C15.groups_equal"},
+		Mutant{"C15", "groups-single-group-treated-as-none", "internal/core/path_manager.go",
+			"	if len(matches2) > 1 {\n		groups2 = matches2[1:]\n	}\n", "	if len(matches2) > 2 {\n		groups2 = matches2[1:]\n	}\n", "C15.groups_equal"},
+		Mutant{"C15", "groups-compared-with-themselves", "internal/core/path_manager.go",
+			"	return slices.Equal(groups1, groups2)\n", "	_ = groups2\n	return slices.Equal(groups1, groups1)\n", "C15.groups_equal"},
+		Mutant{"C15", "groups-change-only-logged", "internal/core/path_manager.go",
+			"		if !captureGroupsEqual(pa.matches, newMatches) {\n			pm.doClosePath(pa)\n			continue\n		}\n", "		if !captureGroupsEqual(pa.matches, newMatches) {\n			pm.Log(logger.Debug, \"capture groups of path %s changed\", pathName)\n		}\n", "C15.groups_equal.use"},
 		Mutant{"C15", "forward-not-reloaded", "internal/core/path.go",
 			"	pa.forwardManager.ReloadConf(newConf.Forward)\n", "", "C15.hot_fields"},
 	)
@@ -42,7 +51,7 @@ func runC15(c *Ctx) {
 	if p == nil {
 		return
 	}
-	c.Explain = "E3: H = {F | `clone.F = newPathConf.F` in core.pathConfCanBeUpdated}; consumers: Forward → (*forward.Manager).ReloadConf(newConf.Forward) in path.doReloadConf; Record* → fields compared `newConf.F != oldConf.F` in path.doReloadConf (set equality with H∩Record*); RPICamera* → fields read in rpicamera.(*cameraParams).fromConf, which the camera run loop calls on params.ReloadConf (linux/arm); any other member of H except Name/Regexp is a violation. E1/E5 on pathManager.doReloadConf."
+	c.Explain = "E3: H = {F | `clone.F = newPathConf.F` in core.pathConfCanBeUpdated}; consumers: Forward → (*forward.Manager).ReloadConf(newConf.Forward) in path.doReloadConf; Record* → fields compared `newConf.F != oldConf.F` in path.doReloadConf (set equality with H∩Record*); RPICamera* → fields read in rpicamera.(*cameraParams).fromConf, which the camera run loop calls on params.ReloadConf (linux/arm); any other member of H except Name/Regexp is a violation. E1/E5 on pathManager.doReloadConf. groups_equal: G(m) = m[1:] if len(m) > 1, else none; every entry→return path of core.captureGroupsEqual (helpers inlined) is enumerated with interval bounds on len($0), len($1); a constant true needs both ≤ 1 (or a positive slices.Equal test), a constant false needs exactly one side ≥ 2 (or a negative test), any other result must be slices.Equal(a, b) with a, b ∈ {$k[1:], empty under len($k) ≤ 1} for k = 0 and 1; groups_equal.use: the call in doReloadConf compares pa.matches with FindPathConf(...)#1, every go pa.reloadConf passes its true edge, its false edge closes the path before the next iteration."
 	c.Assume = []string{"conf.FindPathConf resolves names correctly (C14)", "the external camera process applies the parameters it is sent"}
 
 	// ---- H
@@ -245,6 +254,8 @@ func runC15(c *Ctx) {
 		}
 	}
 	c.Check("C15.reload.matches_used", "doReloadConf: the capture groups returned by FindPathConf(newPaths, name) are compared with / propagated to the live path", used, p.Pos(find.Pos()), "the groups are discarded: a live path would keep the groups of its previous configuration")
+	// the comparison itself is an exact equality on the groups, and a difference closes the path (prop_r3_c15.go)
+	c15GroupsEqual(c, p, rc, fd0)
 	// close when resolution fails
 	isClose := callTo("(*core.pathManager).doClosePath")
 	isGoReload := func(i ssa.Instruction) bool {
